@@ -17,6 +17,7 @@ from .lib import *
 from .lib import _tail_values
 
 EXPLANATION = "Who-may-reset the graph and guard dominance of the restart path (T3/T5), provenance of the roots / imports that Builder::build loads (T4), ordering of evict-then-load in Builder::reload (T2)."
+EXPLANATION += " " + 'Plus: every value of the reload mapping is the redirect-resolved specifier.'
 NOT_DECIDED = "convergence over arbitrary histories of builds and edits"
 CONFIGS = ["default", "nofastcheck"]  # thorough tier also analyses the build without fast_check / symbols
 ASSUMPTIONS = []
